@@ -33,7 +33,7 @@ def fixed_cases(tier):
 
 
 def n_generated(tier):
-    return 1500 if tier == "quick" else 25000
+    return 1500 if tier == "quick" else 7000
 
 
 def strategy(tier):
